@@ -713,7 +713,7 @@ pub fn op_obpre(args: &[&str]) -> String {
     let ext = blob(&format!("{}:{}:{}", args[0], args[1], m));
     let pre = &ext[..n];
     let mk = |d: &[u8]| -> Vec<u8> {
-        if args[5] == "sync" {
+        if args[5] == "sync" || args[5] == "growsync" {
             PostOrderMemOutboard::create(d, bs).data
         } else {
             let mut w = Vec::new();
@@ -722,7 +722,23 @@ pub fn op_obpre(args: &[&str]) -> String {
         }
     };
     let a = mk(pre);
-    let b = mk(&ext);
+    // "grow…": the outboard of the prefix is extended IN PLACE (buffer resized, tree replaced, brought up to date
+    // through the OutboardMut path), as an application that appends to a blob would do it
+    let b = if args[5].starts_with("grow") {
+        let mut ob = PostOrderMemOutboard { root: blake3::hash(pre), tree: BaoTree::new(n as u64, bs), data: a.clone() };
+        let t2 = BaoTree::new(ext.len() as u64, bs);
+        ob.data.resize(t2.outboard_size() as usize, 0);
+        ob.tree = t2;
+        if args[5] == "growsync" {
+            ob.root = sync::outboard(&ext[..], t2, &mut ob).unwrap();
+        } else {
+            ob.root = block_on(fsm::outboard(Bytes::copy_from_slice(&ext), t2, &mut ob)).unwrap();
+        }
+        assert!(ob.root == blake3::hash(&ext), "root after growing in place");
+        ob.data
+    } else {
+        mk(&ext)
+    };
     let tree = BaoTree::new(n as u64, bs);
     let stable = tree
         .post_order_nodes_iter()
@@ -732,7 +748,19 @@ pub fn op_obpre(args: &[&str]) -> String {
     while (lcp + 1) * 64 <= a.len() && (lcp + 1) * 64 <= b.len() && a[lcp * 64..(lcp + 1) * 64] == b[lcp * 64..(lcp + 1) * 64] {
         lcp += 1;
     }
-    format!("{} {} {}", a.len() / 64, stable, lcp)
+    // the grown outboard against the one computed from scratch: common prefix in pairs, and the number of
+    // stable pairs of the extension (those must be right for the outboard to be a prefix of further extensions)
+    let fresh = mk(&ext);
+    let t2 = BaoTree::new(ext.len() as u64, bs);
+    let stable2 = t2
+        .post_order_nodes_iter()
+        .filter(|x| matches!(t2.post_order_offset(*x), Some(bao_tree::PostOrderOffset::Stable(_))))
+        .count();
+    let mut g = 0;
+    while (g + 1) * 64 <= b.len() && (g + 1) * 64 <= fresh.len() && b[g * 64..(g + 1) * 64] == fresh[g * 64..(g + 1) * 64] {
+        g += 1;
+    }
+    format!("{} {} {} {} {}", a.len() / 64, stable, lcp, g, stable2)
 }
 
 /// `enc2 <blob> <bs> <q1> <q2>`: encodings of two queries and the cross decode
